@@ -1077,7 +1077,7 @@ def exec_hist(ctx, case):
     sel_atoms = [atoms0[i] for i in sel]
     kind = "read" if op == "coords-read" else "write"
     pre = f"kept-Substructure[parent-edit={edit}]:{kind}"
-    what = f"Substructure({sel}) of {name} kept across parent edit '{edit}', then {op}"
+    what = f"Substructure({sel}) of {name}{' (read once)' if case.get('touch') else ''} kept across parent edit '{edit}', then {op}"
     v = np.array(case.get("vec", [0.0, 0.0, 0.0]), dtype=float)
     R = N.rot_axis_angle(*case["rot"]) if "rot" in case else np.eye(3)
     ctx.count(evaluations=1, states=1, traces=1)
@@ -1085,6 +1085,13 @@ def exec_hist(ctx, case):
     try:
         sub = m.substructure(list(sel))
         ctx.count(transitions=1)
+        if case.get("touch"):
+            # the view is read (and its centroid taken) once before the parent changes
+            first = np.array(sub.coords)
+            sub.centroid()
+            if first.tobytes() != base[sel].tobytes():
+                ctx.violation("kept-Substructure[fresh]:read:rows-of-other-atoms-returned", f"{what}: a fresh view does not show the selected rows", case)
+                return
         for step in edit.split("+"):
             if step in ("del_atom-lower-index", "del_atom-higher-index"):
                 vi = int(case["victim"])
@@ -1150,7 +1157,7 @@ def exec_hist(ctx, case):
     disp = float(np.max(np.abs(final - mid))) if final.shape == mid.shape and np.all(np.isfinite(final)) else -1
     ctx.outcome(("hist", edit, op, ok, disp > 1e-6))
     if ok and (disp > 1e-6 or op == "coords-read") and edit != "none":
-        ctx.nontrivial(("hist", name, tuple(sel), edit, case.get("victim"), op))
+        ctx.nontrivial(("hist", name, tuple(sel), edit, case.get("victim"), op, bool(case.get("touch"))))
 
 
 def hist_cases(ctx, name):
@@ -1188,10 +1195,12 @@ def hist_cases(ctx, name):
                     if vi is not None:
                         case["victim"] = vi
                     out.append(case)
+                    out.append(dict(case, touch=True))
     # a view of ALL atoms kept across add_atom: the new atom is not selected and must not move
     allsel = list(range(n))
     for oi, op in enumerate(HIST_OPS):
-        out.append({"family": "hist", "mol": name, "sel": allsel, "edit": "add_atom", "op": op, "vec": N.lst(lat[(oi + 40) % 78]), "rot": [N.lst(lat[oi + 4]), ANGLES[4 + oi]]})
+        for touch in (False, True):
+            out.append({"family": "hist", "mol": name, "sel": allsel, "edit": "add_atom", "op": op, "touch": touch, "vec": N.lst(lat[(oi + 40) % 78]), "rot": [N.lst(lat[oi + 4]), ANGLES[4 + oi]]})
     return out
 
 
@@ -1224,6 +1233,10 @@ def exec_histens(ctx, case):
     try:
         cf = e[k]
         sub = cf.substructure(list(sel))
+        if case.get("touch"):
+            np.array(cf.coords)
+            np.array(sub.coords)
+            cf.centroid()
         if edit == "ens-translate[1d]":
             e.translate(np.array(case["pvec"], dtype=float))
         elif edit == "ens-translate[2d]":
@@ -1276,7 +1289,7 @@ def exec_histens(ctx, case):
         ok = judge_edit(ctx, pre, case, mid[k], final[k], moved, expected, topo.stereo_quads(), what=what)
     ctx.outcome(("histens", edit, op, ok))
     if ok and edit != "none":
-        ctx.nontrivial(("histens", name, k, edit, op))
+        ctx.nontrivial(("histens", name, k, edit, op, bool(case.get("touch"))))
 
 
 def part_histens(ctx, spec):
@@ -1303,6 +1316,7 @@ def part_histens(ctx, spec):
                     "prot": [N.lst(lat[(3 * t + 9) % 26]), ANGLES[3 + (t + 3) % 8]],
                 }
                 exec_histens(ctx, case)
+                exec_histens(ctx, dict(case, touch=True))
                 if k == 1 and ei == 3 and oi == 2 and name == "pentane_confs":
                     ctx.sample(case)
 
@@ -1339,7 +1353,7 @@ def run(ctx):
         + ("every (a,d) neighbour choice" if thorough else "every (a,d) neighbour choice (molecules up to 20 atoms; the first and the last choice for dendrobine - quick tier)")
         + " x target menu; stated molecules/ensembles in the global pose; for every test molecule and selection a Substructure KEPT across "
         "each parent edit of {none, del_atom of an unselected atom with a lower / a higher index, add_atom, parent.translate, "
-        "parent.transform, del+add} and then used (translate, transform, coords=, both, read), atoms matched by identity; every conformer "
+        "parent.transform, del+add} and then used (translate, transform, coords=, both, read), with and without one read of the view before the parent edit, atoms matched by identity; every conformer "
         "view (and a Substructure of it) kept across 7 ensemble edits x 4 edits through the view. The result is 'holds at every lattice point' and says "
         "nothing about values outside the lattice. A case is non-trivial when it passes its oracle AND actually moves something "
         "(rotation angle != 0 mod 2pi, displacement > 1e-6, vectors not parallel)"
